@@ -34,8 +34,11 @@ CHECKS["C13"] = ("proof",
     "ordering checker). The span statements (token value = slice at its span, ordered leaf spans, node span = hull, "
     "empty node zero-width between its neighbours) are the Coq boolean spans_ok_b evaluated by the kernel on EVERY tree "
     "the real LR parser returns, and the byte-level Gallina model of the LR runtime + string lexer + layout parser "
-    "reproduces every real outcome (trees with spans/layout/values, error positions). GLR trees are span-checked by the "
-    "C03/C07 runs. Partial: the span invariant is not yet proved as a theorem about the model for all inputs.",
+    "reproduces every real outcome (trees with spans/layout/values, error positions); model_spans_ok: every tree the "
+    "byte-level model returns passes spans_ok_b (all inputs, whitespace-skipping mode). The first three trees of every real "
+    "GLR forest on the same grammars and inputs are judged by spans_ok_b too (one recorded finding: shared nodes of ambiguous "
+    "forests). Partial: the model theorem does not cover the Layout-rule mode (decided by the checker on real trees and by "
+    "correspondence); the GLR runtime has no byte-level model.",
     "machine-checked proof in Coq (position arithmetic theorems) + kernel-evaluated span checker on every real tree + "
     "byte-level model/implementation correspondence", "DESIGN.md §6 C13")
 
@@ -50,7 +53,10 @@ CHECKS["C15"] = ("proof",
     "catch_unwind and a watchdog and must return Ok or Err; LR outcomes also equal the byte-level model's. Termination: "
     "lr_terminates / lr_total (token level, full parsing, default lexer): every table passing reduce_acyclic_b finishes "
     "within (4+|w|)*(4+2*states) turns with Ok or an error; tables failing it are exactly the recorded reduction-cycle "
-    "finding. Partial: termination with partial parsing, custom lexers and for GLR is only observed by the watchdog; "
+    "finding. GLR side at table level: nlr_no_panic (no action of a cell makes the nondeterministic machine over a table "
+    "passing safe_rn_b panic, from any reachable configuration), safe_rn_b evaluated on the real LALR_RN tables. Partial: "
+    "termination with partial parsing, custom lexers and for GLR is only observed by the watchdog; the GSS code itself is "
+    "not modelled; "
     "byte-slicing safety is decided by real runs and correspondence; stack/memory exhaustion cannot be exhibited by "
     "the model.",
     "machine-checked proof in Coq (panic-freedom theorem over validated tables, any lexer) + kernel-evaluated validators "
@@ -63,8 +69,11 @@ CHECKS["C12"] = ("proof",
     "sentence); plus sentence_never_errors, expected_nonempty, error_index_in_range. The validators are kernel-evaluated on "
     "the real tables; the real LRParser and the real GlrParser are run on mutated non-sentences rendered with random "
     "whitespace/newlines/multi-byte spaces and the reported byte offset, line/col and expected list are compared with an "
-    "exact Earley viable-prefix oracle; LR outcomes also equal the byte-level model's. Partial: the GLR half is "
-    "exploration only; byte offsets/line/col rest on the byte-level correspondence and the position theorems of C13.",
+    "exact Earley viable-prefix oracle; LR outcomes also equal the byte-level model's. GLR side at table level: "
+    "glr_positions_exact (the token counts the nondeterministic machine over a table passing sound_rn_b, complete_rn_b, "
+    "viable_b can reach are exactly the lengths of the viable prefixes), validators evaluated on the real LALR_RN tables. "
+    "Partial: that glr/parser.rs follows its table is exploration only; byte offsets/line/col rest on the byte-level "
+    "correspondence and the position theorems of C13.",
     "machine-checked proof in Coq (first-offending-token theorem over validated tables) + kernel-evaluated validators + "
     "real LR/GLR runs against an Earley viable-prefix oracle", "DESIGN.md §6 C12")
 
@@ -128,13 +137,19 @@ CHECKS["C03"] = ("other",
     "that half is decided by exploration: for every generated in-scope grammar (acyclic_b, eps_unamb_b) and every input "
     "up to 6-7 tokens the REAL GlrParser's forest (solutions count, trees modulo elision, index/iteration/out-of-range "
     "behaviour) is compared inside Coq with the verified oracle, and the Gallina forest model applied to the dumped real "
-    "SPPF must equal the real trees in index order.",
+    "SPPF must equal the real trees in index order. TABLE side (Model/NLR.v, the nondeterministic LR machine over the "
+    "multi-action right-nulled table): nlr_sound, nlr_complete, nlr_exact - for every table passing sound_rn_b and "
+    "complete_rn_b (kernel-evaluated on the REAL LALR_RN table of every compiled grammar) the accepting runs over an input "
+    "are exactly its derivation trees; a lexical-ambiguity family splits the real forest by tokenization.",
     "machine-checked proof in Coq for forest enumeration and for the oracle; exploration of the real GLR runtime against "
     "that verified oracle for RNGLR completeness / no duplication", "DESIGN.md §6 C03, reports/C03-C07.md")
 CHECKS["C07"] = ("other",
     "PROVED in Coq (unbounded): the comparison relation (equality modulo elided trailing empty children, spans and token "
     "values included) is an equivalence decided by a normal form; with lr_unique (C01) the LR tree is the unique "
-    "derivation tree. NOT proved: that the GLR runtime returns that tree (needs the unproved half of C03). Decided by "
+    "derivation tree; tables_agree: for one grammar, an LR table passing sound_b/complete_b and a right-nulled multi-action "
+    "table passing sound_rn_b/complete_rn_b (all evaluated on the REAL LALR_PAGER and LALR_RN tables of every grammar) - the "
+    "nondeterministic machine over the GLR table accepts exactly what the LR machine accepts and its only result is the LR "
+    "tree. NOT proved: that the GLR runtime enumerates the runs of its table (the unproved half of C03). Decided by "
     "exploration: for every generated conflict-free grammar both real runtimes (LRParser on the LALR_PAGER table, "
     "GlrParser on the LALR_RN table) run on the same valid and invalid inputs; same Ok/Err, one solution, trees equal "
     "modulo elision including byte/line/col spans and token values, equal error positions; trees compared inside Coq.",
